@@ -289,6 +289,13 @@ def random_spec(rng, **o):
         T[t] *= gains[None, :].astype(np.float32)
         # make sure the peak channel has a clear min and max at distinct samples
         T[t, int(rng.integers(0, nsw)), pk] += np.float32(3.0)
+    if g('exact_amps', False) and nc >= 3:
+        # channels whose amplitude is exactly half the peak's / exactly zero (threshold boundaries)
+        for t in range(nt):
+            pk = int(np.argmax(T[t].max(axis=0) - T[t].min(axis=0)))
+            others = [c for c in range(nc) if c != pk]
+            T[t][:, others[0]] = T[t][:, pk] * np.float32(0.5)
+            T[t][:, others[1]] = 0
     s.templates = T
     if g('sparse_templates', False):
         nloc = min(nc, g('tnloc', int(rng.integers(2, 5))))
